@@ -99,24 +99,33 @@ def raw_signature(v: dict) -> str:
 
 
 def assign_signatures(viols: list[dict]) -> None:
-    """Adds v["signature"].  A guard-PAIR violation is attributed to the single-guard signature of one
-    of its component forms when that form alone already violates (the same clause, or clause (c) of
-    which (a)/(b) are consequences) for the same declared-type family in this run: same cause, one more
-    manifestation.  Otherwise the pair keeps a signature of its own."""
-    singles = set()
+    """Adds v["signature"].  In a guard PAIR the second guard works on the type narrowed by the first, so
+    the declared type is not the cause-level coordinate any more.  A pair violation is therefore
+    attributed to the single-guard signature of one of its two guard forms (inner form first) that
+    fails the same clause - or clause (c), of which (a)/(b) are consequences - in this run, preferring
+    the pair's own declared-type family; only a pair neither of whose forms violates alone keeps a
+    signature of its own (a cause that needs two guards)."""
+    singles: dict[tuple[str, str], list[str]] = {}  # (clause, form) -> families (enumeration order)
     for v in viols:
         if not (v["fam"] == "F1" and v["key"][2].startswith("pair-")):
             v["signature"] = raw_signature(v)
             if v["fam"] == "F1":
-                singles.add(v["signature"])
+                _f, cl, form, famname = v["signature"].split("|", 3)
+                lst = singles.setdefault((cl, form), [])
+                if famname not in lst:
+                    lst.append(famname)
     for v in viols:
         if "signature" in v:
             continue
         famname = decl_family(v["key"][0])
-        forms = v.get("form", "+").split("+", 1)
-        for f in forms:
-            if f"F1|{v['clause']}|{f}|{famname}" in singles or f"F1|c|{f}|{famname}" in singles:
-                v["signature"] = f"F1|{v['clause']}|{f}|{famname}"
+        forms = v.get("form", "+").split("+", 1)[::-1]
+        for cl in (v["clause"], "c"):
+            for f in forms:
+                fams = singles.get((cl, f))
+                if fams:
+                    v["signature"] = f"F1|{v['clause']}|{f}|{famname if famname in fams else fams[0]}"
+                    break
+            if "signature" in v:
                 break
         else:
             v["signature"] = raw_signature(v)
@@ -274,6 +283,8 @@ def _cli_confirm(item: dict) -> dict:
             ran = any(ln.startswith(f"PROBE {pid} ") for ln in probes_run)
             out["revealed_at_probe"] = got
             if clause == "c":
+                raised = str(v["value"]).split(":")[0] in ("TypeError", "AttributeError")
+                ran = ran or (raised and bool(last_err) and last_err[0].split(":")[0] == str(v["value"]).split(":")[0])
                 out["confirmed"] = accepted and ran and len(got) < nprobe and bool(unreachable_lines)
             else:
                 val_ok = any(ln == f"PROBE {pid} " + str(v["value"]) or
